@@ -27,7 +27,7 @@ skip = {"C06-2": "neutralised: fix f8ec028 (RawRecords rejects a record that end
         "C05b-1": "not confirmed: its timing-based demonstration did not fail under tools/verify_mutant.sh; the same change is kept as C14b-2 and C07b-1"}
 kept = []
 for d in sorted(os.listdir(M)):
-    if not re.fullmatch(r'C\d\db?', d): continue
+    if not re.fullmatch(r'C\d\d[bc]?', d): continue
     for n in (1, 2):
         mid = f"{d}-{n}"
         if not os.path.exists(f"{M}/{d}/patch{n}.diff"): continue
@@ -39,7 +39,7 @@ for d in sorted(os.listdir(M)):
         shutil.copy(f"{M}/{d}/demo{n}.rs", f"{dst}/demo.rs")
         for a, b in ((f"notes{n}.md", "notes.md"), (f"verify{n}.log", "verify.log")):
             if os.path.exists(f"{M}/{d}/{a}"): shutil.copy(f"{M}/{d}/{a}", f"{dst}/{b}")
-        own = d.rstrip('b')
+        own = d.rstrip('bc')
         res = dict(earlier.get(mid, {})); res.update(final.get(mid, {}))
         caught = {c: r for c, r in res.items() if r}
         for c in old.get("caught_by_quick_checks", []):
